@@ -23,13 +23,13 @@ func init() {
 
 	register(&core.Rule{ID: "C17.1", Prop: "C17", MinSites: 8,
 		Desc: "sockaddr conversion table: writers and readers cover the same kinds and fields; type switches default to nil; no panicking construct in the conversion functions",
-		Run: runC17_1})
+		Run:  runC17_1})
 	register(&core.Rule{ID: "C17.2", Prop: "C17", MinSites: 5,
 		Desc: "truthful capture: the remote address of a new conn is derived from the sockaddr returned by this Accept/Recvfrom, the local address is listeners[fd].addr for the event's fd",
-		Run: runC17_2})
+		Run:  runC17_2})
 	register(&core.Rule{ID: "C17.3", Prop: "C17", MinSites: 6,
 		Desc: "conn.localAddr, remoteAddr and remote are written only by newStreamConn/newUDPConn and release",
-		Run: runC17_3})
+		Run:  runC17_3})
 }
 
 func runC17_1(c *core.Ctx) {
